@@ -199,6 +199,17 @@ Vanish(f) ==   \* somebody else removes a source file (its events become stale)
   /\ hist' = [hist EXCEPT !.vanished = @ \cup {f}]
   /\ last' = Act("Vanish", f)
   /\ UNCHANGED <<cfg, dst, pend, pc, rbq>>
+\* The newest metadata file itself is removed by somebody else.  The watcher reports that deletion in order, before
+\* anything that happens later, so the ringbuffer forgets the file; `created` / `modified` events of the file may still
+\* arrive afterwards (pend is untouched) and are stale then.
+VanishNewest(f) ==
+  /\ pc = Idle /\ Newest(f) /\ src[f] = Full
+  /\ Cardinality(hist.vanished) < cfg.maxvanish
+  /\ src' = [src EXCEPT ![f] = Absent]
+  /\ rbq' = rbq \ {f}
+  /\ hist' = [hist EXCEPT !.vanished = @ \cup {f}]
+  /\ last' = Act("VanishNewest", f)
+  /\ UNCHANGED <<cfg, dst, pend, pc>>
 
 Crash ==       \* the mirror process dies between two operations: its memory and its event queue are gone
   /\ ~hist.down /\ hist.crashes < cfg.maxcrash
@@ -240,7 +251,12 @@ Staged     == \A f \in Files : dst.final[f] \in {Absent, Full}
 NoLossMove == \A f \in RF : f \notin hist.vanished => IntactSomewhere(f)
 MdNoLoss   == \A f \in MD \cup PR : f \notin hist.vanished => IntactSomewhere(f)
 PropsStay  == \A f \in PR : src[f] = Full
-NewestMdStays == \A f \in MD : Newest(f) => src[f] = Full
+NewestMdStays == \A f \in MD : (Newest(f) /\ f \notin hist.vanished) => src[f] = Full
+\* the same as a step property, which also speaks about histories in which the newest file vanished: the mirror
+\* removes a metadata file from the source only while a newer one of its group is there
+NewerInSource(f) == \E g \in MD : Grp(g) = Grp(f) /\ Key(g) > Key(f) /\ src[g] = Full
+RemovedByMirror(f) == src[f] = Full /\ src'[f] = Absent /\ f \notin hist'.vanished
+NewestMdNeverRemoved == [][\A f \in MD : RemovedByMirror(f) => NewerInSource(f)]_vars
 PropsAndMdCopied ==
   /\ PropsStay
   /\ MdNoLoss
